@@ -165,11 +165,11 @@ Proof. intros w. unfold index_of. apply walk_good; [apply good_nil|reflexivity].
 Lemma walk_err_sticky : forall build prefix ps o st e, werr st = Some e -> walk build prefix ps o st = st.
 Proof. intros. rewrite walk_eq, H. reflexivity. Qed.
 
-Lemma fold_kids_err_sticky : forall (build:bool) f l i st e,
+Lemma fold_kids_err_sticky : forall f l i st e,
   (forall i k s e, werr s = Some e -> f i k s = s) ->
   werr st = Some e -> @fold_kids wst f l i st = st.
 Proof.
-  intros build f l. induction l as [|k l IH]; intros i st e Hf He; cbn [fold_kids]; [reflexivity|].
+  intros f l. induction l as [|k l IH]; intros i st e Hf He; cbn [fold_kids]; [reflexivity|].
   rewrite (Hf i k st e He). eapply IH; eauto.
 Qed.
 
@@ -191,69 +191,59 @@ Proof.
   - cbn [widx werr]. rewrite E. split; auto.
 Qed.
 
-Lemma build_reindex_same : forall o prefix ps st1 st2,
-  tmpl_okb o = true ->
-  widx st1 = widx st2 -> werr st1 = None -> werr st2 = None ->
-  werr (walk true prefix ps o st1) = None ->
-  widx (walk true prefix ps o st1) = widx (walk false prefix ps o st2)
-  /\ werr (walk false prefix ps o st2) = None.
+Definition same_walk (o:obj) : Prop :=
+  forall prefix ps st1 st2, tmpl_okb o = true -> widx st1 = widx st2 ->
+    werr st1 = None -> werr st2 = None -> werr (walk true prefix ps o st1) = None ->
+    widx (walk true prefix ps o st1) = widx (walk false prefix ps o st2)
+    /\ werr (walk false prefix ps o st2) = None.
+
+Lemma fold_build_reindex : forall pre ps l j t1 t2,
+  Forall same_walk l -> forallb tmpl_okb l = true ->
+  widx t1 = widx t2 -> werr t1 = None -> werr t2 = None ->
+  werr (fold_kids (fun i k s => walk true pre (ps ++ [i]) k s) l j t1) = None ->
+  widx (fold_kids (fun i k s => walk true pre (ps ++ [i]) k s) l j t1)
+  = widx (fold_kids (fun i k s => walk false pre (ps ++ [i]) k s) l j t2)
+  /\ werr (fold_kids (fun i k s => walk false pre (ps ++ [i]) k s) l j t2) = None.
+Proof.
+  intros pre ps. induction l as [|k l IHl]; intros j t1 t2 Hall Hok Et W1 W2 Hfin; cbn [fold_kids] in *; [split; assumption|].
+  inversion Hall as [|? ? Hk1 Hk2]; subst.
+  cbn [forallb] in Hok. apply andb_true_iff in Hok. destruct Hok as [Hka Hkb].
+  destruct (werr (walk true pre (ps ++ [j]) k t1)) eqn:Wk.
+  - exfalso.
+    erewrite fold_kids_err_sticky in Hfin; [rewrite Wk in Hfin; discriminate| |exact Wk].
+    intros i0 k0 s0 e0 He0. apply walk_err_sticky with (e:=e0). exact He0.
+  - destruct (Hk1 pre (ps ++ [j]) t1 t2 Hka Et W1 W2 Wk) as [Et' W2'].
+    apply IHl; assumption.
+Qed.
+
+Lemma skip_same : forall o, Z.leb (-1) (otmpl (ohdr o)) = true -> skip_obj true o = skip_obj false o.
+Proof.
+  intros o Ht. unfold skip_obj. apply Z.leb_le in Ht.
+  destruct (Z.eqb_spec (otmpl (ohdr o)) (-1)), (Z.ltb_spec (otmpl (ohdr o)) 0); try reflexivity; lia.
+Qed.
+
+Lemma build_reindex_same : forall o, same_walk o.
 Proof.
   induction o as [h ws a|h ks a IH] using obj_ind2; intros prefix ps st1 st2 Ht E E1 E2; rewrite !walk_eq, E1, E2; cbv zeta.
   - assert (Hs : skip_obj true (Def h ws a) = skip_obj false (Def h ws a)).
-    { unfold skip_obj. cbn in Ht. apply andb_true_iff in Ht. destruct Ht as [Ht _]. apply Z.leb_le in Ht.
-      destruct (Z.eqb_spec (otmpl h) (-1)), (Z.ltb_spec (otmpl h) 0); cbn [ohdr]; try reflexivity; lia. }
+    { apply skip_same. cbn in Ht. apply andb_true_iff in Ht. tauto. }
     rewrite Hs. destruct (skip_obj false (Def h ws a)); [intros _; split; assumption|].
     destruct (visit_same_idx (join_path prefix (oname (ohdr (Def h ws a)))) ps (Def h ws a) st1 st2 E) as [Ei Ee].
-    destruct (werr (visit true _ ps (Def h ws a) st1)) eqn:W1; [intros; discriminate|].
+    destruct (werr (visit true _ ps (Def h ws a) st1)) eqn:W1; [intros; congruence|].
     rewrite (Ee eq_refl).
-    destruct (type_missing true (Def h ws a)); [cbn [werr]; intros; discriminate|].
+    destruct (type_missing true (Def h ws a)); [cbn [werr]; intros; congruence|].
     cbn [type_missing andb]. intros _. split; [exact Ei|apply Ee; reflexivity].
   - assert (Hs : skip_obj true (Scp h ks a) = skip_obj false (Scp h ks a)).
-    { unfold skip_obj. cbn in Ht. apply andb_true_iff in Ht. destruct Ht as [Ht _]. apply Z.leb_le in Ht.
-      destruct (Z.eqb_spec (otmpl h) (-1)), (Z.ltb_spec (otmpl h) 0); cbn [ohdr]; try reflexivity; lia. }
+    { apply skip_same. cbn in Ht. apply andb_true_iff in Ht. tauto. }
     rewrite Hs. destruct (skip_obj false (Scp h ks a)); [intros _; split; assumption|].
     set (fp := join_path prefix (oname (ohdr (Scp h ks a)))).
     destruct (visit_same_idx fp ps (Scp h ks a) st1 st2 E) as [Ei Ee].
-    destruct (werr (visit true fp ps (Scp h ks a) st1)) eqn:W1; [intros; discriminate|].
+    destruct (werr (visit true fp ps (Scp h ks a) st1)) eqn:W1; [intros; congruence|].
     rewrite (Ee eq_refl).
-    destruct (type_missing true (Scp h ks a)); [cbn [werr]; intros; discriminate|].
+    destruct (type_missing true (Scp h ks a)); [cbn [werr]; intros; congruence|].
     cbn [type_missing andb].
     assert (Hk : forallb tmpl_okb ks = true) by (cbn in Ht; apply andb_true_iff in Ht; tauto).
-    clear Ht Hs.
-    generalize (visit true fp ps (Scp h ks a) st1) (visit false fp ps (Scp h ks a) st2) Ei W1 (Ee eq_refl).
-    clear Ei Ee W1.
-    generalize 0%nat.
-    induction ks as [|k ks IHks]; intros i s1 s2 Ei W1 W2 Hfin; cbn [fold_kids] in *; [split; assumption|].
-    inversion IH as [|? ? Hk1 Hk2]; subst.
-    cbn [forallb] in Hk. apply andb_true_iff in Hk. destruct Hk as [Hka Hkb].
-    set (pre := kid_prefix (Scp h (k :: ks) a) fp) in *.
-    destruct (werr (walk true pre (ps ++ [i]) k s1)) eqn:Wk.
-    + exfalso.
-      rewrite (fold_kids_err_sticky true _ ks (S i) _ s Wk) in Hfin by (intros; apply walk_err_sticky with (e:=e); assumption).
-      rewrite Wk in Hfin. discriminate.
-    + destruct (Hk1 pre (ps ++ [i]) s1 s2 Hka Ei W1 W2 Wk) as [Ei' W2'].
-      (* the remaining children: same loop with the prefix of the full list *)
-      assert (Hrest : forall l j t1 t2,
-                Forall (fun o => forall prefix ps st1 st2, tmpl_okb o = true -> widx st1 = widx st2 ->
-                          werr st1 = None -> werr st2 = None -> werr (walk true prefix ps o st1) = None ->
-                          widx (walk true prefix ps o st1) = widx (walk false prefix ps o st2)
-                          /\ werr (walk false prefix ps o st2) = None) l ->
-                forallb tmpl_okb l = true ->
-                widx t1 = widx t2 -> werr t1 = None -> werr t2 = None ->
-                werr (fold_kids (fun i k s => walk true pre (ps ++ [i]) k s) l j t1) = None ->
-                widx (fold_kids (fun i k s => walk true pre (ps ++ [i]) k s) l j t1)
-                = widx (fold_kids (fun i k s => walk false pre (ps ++ [i]) k s) l j t2)
-                /\ werr (fold_kids (fun i k s => walk false pre (ps ++ [i]) k s) l j t2) = None).
-      { clear. induction l as [|k l IHl]; intros j t1 t2 Hall Hok Et W1 W2 Hfin; cbn [fold_kids] in *; [split; assumption|].
-        inversion Hall as [|? ? Hk1 Hk2]; subst.
-        cbn [forallb] in Hok. apply andb_true_iff in Hok. destruct Hok as [Hka Hkb].
-        destruct (werr (walk true pre (ps ++ [j]) k t1)) eqn:Wk.
-        - exfalso.
-          rewrite (fold_kids_err_sticky true _ l (S j) _ s Wk) in Hfin by (intros; apply walk_err_sticky with (e:=e); assumption).
-          rewrite Wk in Hfin. discriminate.
-        - destruct (Hk1 pre (ps ++ [j]) t1 t2 Hka Et W1 W2 Wk) as [Et' W2'].
-          apply IHl; assumption. }
-      apply Hrest; assumption.
+    intros Hfin. apply fold_build_reindex; auto.
 Qed.
 
 Theorem build_of_index_of : forall w,
